@@ -267,6 +267,14 @@ impl RtpHeader {
                 "header extension payload must be 32-bit aligned",
             ));
         }
+        // The extension length field counts 32-bit words in 16 bits.
+        if let Some(ext) = &self.extension
+            && ext.data.len() / 4 > u16::MAX as usize
+        {
+            return Err(RtpError::InvalidHeader(
+                "header extension longer than 65535 words",
+            ));
+        }
         Ok(())
     }
 
